@@ -70,6 +70,7 @@ struct Hist {
     RevisitMonitor revisit;
     uint64_t salt{1};
     int64_t clock; // generator's idea of "now" (mock time follows it)
+    bool hold_clock{false}; // while set, handing out block times does not move the clock
     // statistics of this history (logged in the case record)
     std::map<std::string, int64_t> st;
     std::vector<std::string> samples;
@@ -106,7 +107,7 @@ struct Hist {
         if (rng.chance(1, 6)) t = parent->mtp + 1 + (int64_t)rng.below(300);
         else t = (int64_t)parent->block->nTime + 1 + (int64_t)rng.below(900);
         if (t <= parent->mtp) t = parent->mtp + 1;
-        if (t > clock) {
+        if (t > clock && !hold_clock) {
             clock = t;
         }
         return (uint32_t)t;
@@ -1377,6 +1378,7 @@ struct Hist {
             // header time: now+7201 (too new, refused for now) / now+7200 (ok)
             SyncClock();
             const int64_t now = node.Time();
+            hold_clock = true; // the mock time must stay where it is between building and delivering these two blocks
             auto bad = BuildOn(tip, txs, [&](BlockSpec& s) { s.time = (uint32_t)(now + 7201); });
             RefBlock* rb = Register(bad, "time-now+7201", "");
             {
@@ -1387,9 +1389,9 @@ struct Hist {
                 if (tagged.size() < 60) tagged.push_back(vh::J().str("tag", rb->meta.tag).i("h", rb->height).str("expect", "TIME_FUTURE:time-too-new@header").str("observed", d.blk.verdict ? d.blk.verdict->ResultName() + ":" + d.blk.verdict->reason : "none").str("index", d.index_after.Str()).done());
             }
             auto ok = BuildOn(tip, txs, [&](BlockSpec& s) { s.time = (uint32_t)(now + 7200); });
+            hold_clock = false;
             RefBlock* rbo = Register(ok, "time-now+7200", "");
             SendTagged(rbo, "time_now7200_acc", true);
-            if (node.TipHash() == rbo->hash) clock = std::max<int64_t>(clock, now); // do not jump the clock by two hours
             break;
         }
         case 8: {
@@ -1724,6 +1726,7 @@ VH_CMD(chainsim)
             case 11: h.InvalidBranch(); break;
             }
             } catch (const GenError& ex) {
+                h.hold_clock = false;
                 h.Obs("generator_aborted_actions");
                 vh::log().rec(vh::J().str("harness_note", ex.what()).u("of_case", c).i("action", a));
             }
